@@ -125,6 +125,13 @@ var examplePaddings = []string{"", "a", " "}
 // When nothing was found and the pattern has such classes, the search is done
 // once more with the surrogates taken out of the classes. A pattern for which
 // the first search finds a string gets the string it has always got.
+//
+// At last, the generator chooses the character of a class blindly, though an
+// assertion inside the pattern may require a particular one: the line feed out
+// of \W for (?m)^a$\W^b$, an ASCII letter out of \pL for \d\B\pL. The padding
+// is of no use there. When still nothing was found, the search is done for the
+// pattern with the classes narrowed to the characters of one kind the assertions
+// tell apart, for every kind in turn (see exampleNarrowings).
 func matchingExample(pattern string, seed int64) (string, bool) {
 	re, err := regexp.Compile(pattern)
 	if err != nil {
@@ -136,7 +143,17 @@ func matchingExample(pattern string, seed int64) (string, bool) {
 	}
 
 	if p, ok := patternWithoutSurrogates(pattern); ok {
-		return searchExample(re, p, seed)
+		if example, ok := searchExample(re, p, seed); ok {
+			return example, true
+		}
+	}
+
+	for _, limits := range exampleNarrowings {
+		if p, ok := narrowedPattern(pattern, limits); ok {
+			if example, ok := searchExample(re, p, seed); ok {
+				return example, true
+			}
+		}
 	}
 	return "", false
 }
@@ -244,6 +261,83 @@ func rangesWithoutSurrogates(ranges []rune) ([]rune, bool) {
 		}
 	}
 	return res, removed
+}
+
+// exampleNarrowings are the kinds of characters (sorted pairs of range bounds)
+// the zero-width assertions tell apart: the line feed (^ and $ in the multi-line
+// mode), the ASCII word characters and the printable ASCII non-word characters
+// (\b and \B).
+var exampleNarrowings = [][]rune{
+	{'\n', '\n'},
+	{'0', '9', 'A', 'Z', '_', '_', 'a', 'z'},
+	{' ', '/', ':', '@', '[', '^', '`', '`', '{', '~'},
+}
+
+// narrowedPattern returns the pattern for the generator (see generatorPattern)
+// in which every character class (and dot) having characters within the limits
+// has no other characters. The second result is false when the pattern has no
+// class to narrow.
+func narrowedPattern(pattern string, limits []rune) (string, bool) {
+	re, err := syntax.Parse(pattern, syntax.Perl)
+	if err != nil {
+		return "", false
+	}
+	if !narrowClasses(re, limits) {
+		return "", false
+	}
+	removeSurrogates(re)
+	replaceNonASCIIClasses(re)
+	return re.String(), true
+}
+
+func narrowClasses(re *syntax.Regexp, limits []rune) bool {
+	var ranges []rune
+	switch re.Op {
+	case syntax.OpCharClass:
+		ranges = re.Rune
+	case syntax.OpAnyChar:
+		ranges = []rune{0, unicode.MaxRune}
+	case syntax.OpAnyCharNotNL:
+		ranges = []rune{0, '\n' - 1, '\n' + 1, unicode.MaxRune}
+	}
+
+	narrowed := false
+	if within, ok := rangesWithin(ranges, limits); ok {
+		re.Op = syntax.OpCharClass
+		re.Rune = within
+		narrowed = true
+	}
+	for _, sub := range re.Sub {
+		if narrowClasses(sub, limits) {
+			narrowed = true
+		}
+	}
+	return narrowed
+}
+
+// rangesWithin returns the part of the class which is within the limits (both
+// are sorted pairs of range bounds). The second result is false when the class
+// has no characters within the limits or has no other characters.
+func rangesWithin(ranges, limits []rune) ([]rune, bool) {
+	var res []rune
+	size, resSize := 0, 0
+	for i := 0; i+1 < len(ranges); i += 2 {
+		size += int(ranges[i+1]-ranges[i]) + 1
+		for j := 0; j+1 < len(limits); j += 2 {
+			lo, hi := ranges[i], ranges[i+1]
+			if lo < limits[j] {
+				lo = limits[j]
+			}
+			if hi > limits[j+1] {
+				hi = limits[j+1]
+			}
+			if lo <= hi {
+				res = append(res, lo, hi)
+				resSize += int(hi-lo) + 1
+			}
+		}
+	}
+	return res, 0 < resSize && resSize < size
 }
 
 // generatorPattern returns the pattern the example should be generated from.
